@@ -151,8 +151,12 @@ func RunDaemonCase(c Case, baseDir string, d DaemonCfg) (evs []Event) {
 			if sto, ok := r.store.(*litestream.Store); ok && r.lsUp {
 				ctx, cancel := context.WithTimeout(r.ctx, 15*time.Second)
 				_, err := sto.SyncDB(ctx, r.dbPath, true)
+				timedOut := ctx.Err() != nil
 				cancel()
 				ev.Res, ev.Ack = errClass(err), err == nil
+				if err != nil && timedOut {
+					ev.Res = "timeout" // the machine was too slow for the 15 s budget: inconclusive, never judged
+				}
 			} else {
 				ev.Res = "skip"
 			}
